@@ -38,6 +38,7 @@ type Contract struct {
 	Loops    map[int][]Clause
 	Flags    map[string]string
 	Modular  bool
+	ModularIn []string
 	Nullable map[string]bool
 	Line     int
 	Variants []Variant // input-shape variants: each is checked separately
@@ -270,6 +271,12 @@ func loadContracts(path string) (*ContractSet, error) {
 				cur.Lets = append(cur.Lets, Let{m[1], n, m[2]})
 			case "modular":
 				cur.Modular = true
+				// `modular in=A,B`: only when verifying the named functions (others execute the body in place)
+				for _, f := range fields[1:] {
+					if strings.HasPrefix(f, "in=") {
+						cur.ModularIn = strings.Split(f[3:], ",")
+					}
+				}
 			case "flag":
 				for _, f := range fields[1:] {
 					if i := strings.Index(f, "="); i >= 0 {
